@@ -9,6 +9,10 @@ use crate::common::{alc, lct, oti, partition, pkt, Profile};
 use crate::tools;
 use std::time::SystemTime;
 
+pub use crate::common::oti::{
+    RaptorQSchemeSpecific, RaptorSchemeSpecific, ReedSolomonGF2MSchemeSpecific, SchemeSpecific,
+};
+
 /// RFC 5052 block partitioning as computed by the library
 /// returns (a_large, a_small, nb_a_large, nb_blocks)
 pub fn block_partitioning(b: u64, l: u64, e: u64) -> (u64, u64, u64, u64) {
